@@ -142,6 +142,22 @@ def handle : Handler
           let c := choices.getD t 0
           mask.getD c false && !taken.contains c
         some s!"ok {showList centers} {showBool offered}") "bad-args"
+  -- contract lines: what the theorems assume of external code, evaluated on what it returned ---------
+  | "c05.contract_argsort", [key, perm] => some <| Option.getD (do
+      let key ← intList? key
+      let p ← natList? perm
+      let isPerm := p.isPerm (List.range key.length)
+      let ks := p.map fun i => key.getD i 0
+      let sorted := (ks.zip (ks.drop 1)).all fun (a, b) => decide (a ≤ b)
+      some (verdict (isPerm && sorted) s!"perm={isPerm} sorted={sorted}")) "bad-args"
+  | "c05.contract_leiden", [labels, refined] => some <| Option.getD (do
+      -- `LeidenContract`: same length, and a refined cluster lies inside one cluster
+      let l ← intList? labels
+      let r ← intList? refined
+      let n := l.length
+      let within := (List.range n).all fun i => (List.range n).all fun j =>
+        !(r.getD i 0 == r.getD j 0) || l.getD i 0 == l.getD j 0
+      some (verdict (r.length == n && within) s!"len={r.length == n} within={within}")) "bad-args"
   -- specification lines ------------------------------------------------------------------
   | "c05.spec_reindex", [l, out] => some <| Option.getD (do
       let l ← intList? l
